@@ -381,7 +381,7 @@ def rename_enum_value_in_place(ctx, rng, case, ir_now, root, issue, raises_key):
             return type(v)((k, ren(x)) for k, x in v.items())
         return v
 
-    ir3 = copy.deepcopy(ir_now)
+    ir3 = S.clone(ir_now)
     used = [0]
 
     def fix(inputs):
